@@ -500,6 +500,10 @@ where
     pub fn verif_scale_values(&mut self, index: &[usize], scale: T) {
         _scale_values(&mut self.ldlsolver, &mut self.KKT, index, scale);
     }
+    /// `offset_values` of the LDL backend (its private copy only)
+    pub fn verif_offset_values(&mut self, index: &[usize], offset: T, signs: &[i8]) {
+        self.ldlsolver.offset_values(index, offset, signs);
+    }
     /// the full solution vector of the last solve (length n+m+p)
     pub fn verif_x(&self) -> &[T] {
         &self.x
